@@ -332,7 +332,11 @@ Proof.
   - apply peek_slice_good; auto.
   - destruct (tok_as_str _ H) as (w & -> & _). cbn. repeat split; auto.
   - apply literal_then; [apply string_literal; auto|]. intros x. cbn. repeat split; auto.
-  - apply literal_then; [apply insens_literal; auto|]. intros x. cbn. repeat split; auto.
+  - destruct (fix_insens fl).
+    + cbn [rule_re] in M. unfold sy in M. apply inv_sym in M. remember (tkids k) as ks eqn:Eks. clear Eks. inv_word M.
+      cbn [kids_ok] in K. destruct K as (_ & K0 & _).
+      apply literal_then; [apply string_literal; auto|]. intros x. cbn. repeat split; auto.
+    + apply literal_then; [apply insens_literal; auto|]. intros x. cbn. repeat split; auto.
   - apply range_good; auto.
   - apply RG; auto.
 Qed.
